@@ -198,9 +198,25 @@ Definition for_loop (call : string -> val -> val -> option (val * val)) (x : str
         end
     end.
 
+(* the same loop over a `Vec<Necessity<Element>>` (binding a child) *)
+Definition for_loop_ch (call : string -> val -> val -> option (val * val)) (x : string) (body : stmt)
+  : list (nec * element) -> env -> option (env * flow) :=
+  fix loop (items : list (nec * element)) (en : env) {struct items} : option (env * flow) :=
+    match items with
+    | [] => Some (en, Normal)
+    | i :: r =>
+        match exec call body ((x, VChild i) :: en) with
+        | Some (en', Normal) => loop r en'
+        | r' => r'
+        end
+    end.
+
 Lemma exec_for call x it body en :
   exec call (SFor x it body) en =
-  match eval call it en with Some (VNames l, en1) => for_loop call x body l en1 | _ => None end.
+  match eval call it en with
+  | Some (VNames l, en1) => for_loop call x body l en1
+  | Some (VChildren l, en1) => for_loop_ch call x body l en1
+  | _ => None end.
 Proof. reflexivity. Qed.
 
 Lemma exec_seq call s1 s2 en :
